@@ -6,6 +6,7 @@ import warnings
 import numpy as np
 
 from shangrla.core.Audit import CVR, Assertion, Audit, Contest
+from shangrla.core.NonnegMean import NonnegMean
 
 from vmc import core
 from . import s3
@@ -25,7 +26,7 @@ RULE = (
 )
 ASSUMPTIONS = ["the range test is exact (no tolerance): the bound and the largest possible datum are the same floating-point expression; 1e-12 relative on the value of u itself", "non-positive margins are outside the property's quantifier: counted, not judged",
                "set_p_values is only called when the contest has at least one datum"]
-REQUIRE_VAC = ["contests_built_by_from_cvr_list", "supermajority_assertion_built_directly", "two_assertions_with_different_bounds", "datum_equal_0", "datum_equal_u", "cards_filtered_by_threshold", "cards_filtered_by_style", "pooled_cards_in_data", "set_p_values_calls"]
+REQUIRE_VAC = ["unanimous_pool_cases", "contests_built_by_from_cvr_list", "supermajority_assertion_built_directly", "two_assertions_with_different_bounds", "datum_equal_0", "datum_equal_u", "cards_filtered_by_threshold", "cards_filtered_by_style", "pooled_cards_in_data", "set_p_values_calls"]
 PLAN = {"quick": {"full": 2, "reduced": 2}, "thorough": {"full": 2, "reduced": 3}}
 KINDS = ["plurality", "sm13", "sm12", "supermajority", "sm34", "irv_neb", "irv_nen"]
 AUDITS = [Audit.AUDIT_TYPE.POLLING, Audit.AUDIT_TYPE.CARD_COMPARISON, Audit.AUDIT_TYPE.ONEAUDIT]
@@ -167,6 +168,42 @@ def judge_from_cvr_list(cards, style):
     return out, True
 
 
+POOL_SHARES = (0.55, 0.6, 0.65, 0.7, 0.9, 1 / 3, 2 / 3, 3 / 4)
+
+
+def judge_unanimous_pool(share, n, style):
+    """ONEAudit, super-majority with the given share: a pooled batch of n cards that all show a valid vote for the winner (its
+    mean is the assorter's bound 1/(2 share), generally not a binary fraction), three un-pooled cards for the loser; the
+    manual record of one pooled card shows the loser.  Every datum must lie in [0, u] exactly."""
+    cvrs = [CVR(id=f"p{i}", votes={s3.CID: {"A": True}}, tally_pool="P", pool=True, sample_num=i + 1) for i in range(n)]
+    cvrs += [CVR(id=f"q{i}", votes={s3.CID: {"B": True}}, sample_num=n + i + 1) for i in range(3)]
+    mvrs = [CVR(id=c.id, votes={k: dict(v) for k, v in c.votes.items()}) for c in cvrs]
+    mvrs[0] = CVR(id="p0", votes={s3.CID: {"B": True}})
+    for c in cvrs:
+        c.sampled = True
+    try:
+        with contextlib.redirect_stdout(io.StringIO()), warnings.catch_warnings(), np.errstate(all="ignore"):
+            warnings.simplefilter("ignore")
+            con = Contest.from_dict({"id": s3.CID, "name": s3.CID, "risk_limit": 0.05, "cards": len(cvrs), "choice_function": Contest.SOCIAL_CHOICE_FUNCTION.SUPERMAJORITY,
+                                     "n_winners": 1, "share_to_win": share, "candidates": ["A", "B"], "winner": ["A"], "audit_type": Audit.AUDIT_TYPE.ONEAUDIT,
+                                     "test": NonnegMean.kaplan_wald, "g": 0.1, "use_style": style, "sample_threshold": 10 ** 9})
+            Assertion.make_all_assertions({s3.CID: con})
+            asn = next(iter(con.assertions.values()))
+            audit = Audit.from_dict({"strata": {"s": {"max_cards": len(cvrs), "use_style": style, "replacement": False}}})
+            asn.assorter.set_tally_pool_means(cvr_list=cvrs, tally_pools=None, use_style=style)
+            asn.set_margin_from_cvrs(audit, cvrs)
+            if not (asn.margin > 0):
+                return []
+            d, u = asn.mvrs_to_data(mvrs, cvrs)
+            d = np.asarray(d, dtype=float)
+    except Exception as e:  # noqa
+        return [(f"C06|unanimous-pool|exception|{type(e).__name__}", f"{type(e).__name__}: {str(e)[:80]}")]
+    if d.min() < 0 or d.max() > u:
+        return [("C06|unanimous-pool|datum-outside-[0,u]", f"share {share}, pool of {n} cards all for the winner (pool mean {asn.assorter.tally_pool_means}, assorter bound "
+                 f"{asn.assorter.upper_bound!r}): data min {d.min()!r}, max {d.max()!r}, u = {u!r}")]
+    return []
+
+
 def judge_tiny_margin(kind, audit_type, margin):
     """a margin set by hand (as from a tally of a very large, very close contest): set_p_values must install exactly
     2/(2 - v/u_a) over whatever bound the test held before, and an understated card's datum equals that bound"""
@@ -262,6 +299,17 @@ def run_shard(sh, rec):
                     for key, what in judge_tiny_margin(kind, at, margin):
                         rec.violate(key, what, {"tiny": True, "kind": kind, "audit_type": at, "margin": margin})
         return
+    if sh[0] == "pools":
+        for share in POOL_SHARES:
+            for n in range(1, 41):
+                for style in (True, False):
+                    rec.state()
+                    rec.trans()
+                    rec.evals()
+                    rec.vac("unanimous_pool_cases")
+                    for key, what in judge_unanimous_pool(share, n, style):
+                        rec.violate(key, what, {"pools": True, "share": share, "n": n, "style": style})
+        return
     if sh[0] == "fromcvrs":
         alpha = s3.alphabet("plurality", True)
         for n in (1, 2, 3):
@@ -328,6 +376,7 @@ def explore(tier, seed):
                 sh.append((kind, n, first, True, n == pl["reduced"]))
     sh.append(("tiny",))
     sh.append(("fromcvrs",))
+    sh.append(("pools",))
     for n in (1, 2):
         for first in range(len(s3.alphabet("plurality"))):
             sh.append(("multi", n, first))
@@ -337,6 +386,8 @@ def explore(tier, seed):
 def run_case(case):
     if case.get("tiny"):
         return judge_tiny_margin(case["kind"], case["audit_type"], case["margin"])
+    if case.get("pools"):
+        return judge_unanimous_pool(case["share"], case["n"], case["style"])
     if case.get("fromcvrs"):
         return judge_from_cvr_list([tuple(c) for c in case["cards"]], case["style"])[0]
     if case.get("multi"):
